@@ -137,3 +137,34 @@ pub proof fn lemma_dc2_nonneg(m: int, d: int)
     vstd::arithmetic::div_mod::lemma_div_pos_is_pos(m, d);
     vstd::arithmetic::div_mod::lemma_mod_bound(m, d);
 }
+
+/// a number below twice the divisor needs at most one subtraction (what div_rem_1by1 / div_rem_2by2 do for a
+/// normalized divisor): hints that let a hand-written compare-and-subtract be judged by the contract
+pub proof fn lemma_dc2_one_sub(x: int, d: int)
+    requires 0 <= x, d >= 1,
+    ensures x < d ==> x % d == x, d <= x < 2 * d ==> x % d == x - d,
+{
+    if x < d {
+        vstd::arithmetic::div_mod::lemma_small_mod(x as nat, d as nat);
+    } else if x < 2 * d {
+        vstd::arithmetic::div_mod::lemma_fundamental_div_mod_converse(x, d, 1, x - d);
+    }
+}
+pub proof fn lemma_dc2_one_sub_lo(x: int, d: int)
+    requires 0 <= x, d >= 1,
+    ensures x < d ==> x % d == x,
+{
+    lemma_dc2_one_sub(x, d);
+}
+
+/// C13 form of the rem_* results: (x << shift) mod (d << shift) is (x mod d) << shift, a residue of [0, d) scaled by the shift
+pub proof fn lemma_dc2_scaled(x: int, o: int, p: int, dn: int)
+    requires x >= 0, p >= 1, dn > 0, dn % p == 0, o == dn / p,
+    ensures (x * p) % dn == (x % o) * p, 0 <= x % o < o, o >= 1,
+{
+    let rs = (x * p) % dn;
+    lemma_dc_rem_unshift(x, o, p, dn, rs);
+    lemma_dc2_unique_r(x, o, rs / p);
+    vstd::arithmetic::div_mod::lemma_fundamental_div_mod(rs, p);
+    assert(p * (rs / p) == (rs / p) * p) by (nonlinear_arith);
+}
